@@ -263,7 +263,10 @@ def healpy_check(nsides, nrandom, seed):
                         'key': None,
                     }
                 )
-        out['per_nside'][str(nside)] = {'directions': int(theta.size), 'mismatches': int(bad.size), 'near_boundary': nb, 'dtype': str(got.dtype)}
+        by_class = {}
+        for i in bad:
+            by_class[tag[i]] = by_class.get(tag[i], 0) + 1
+        out['per_nside'][str(nside)] = {'directions': int(theta.size), 'mismatches': int(bad.size), 'near_boundary': nb, 'mismatches_by_class': by_class, 'dtype': str(got.dtype)}
         out['boundary_mismatches'] += nb
         out['directions'] += int(theta.size)
     return out
@@ -796,8 +799,8 @@ class Check(PropertyCheck):
             'healpy_agreement_x64_on': {k: v for k, v in res.items() if k != 'failures'},
             'healpy_agreement_x64_off_informative': {
                 'per_nside': off['per_nside'],
-                'not_near_boundary': len(off['failures']),
-                'note': 'float32 angles: differences from healpy (float64) are expected; not counted as failures',
+                'note': 'float32 angles (resolution ~1e-7 rad): differences from healpy (float64) on directions placed '
+                'within 1e-6 rad of a boundary are expected; informative, not counted as failures',
             },
             'failures': res['failures'],
         }
